@@ -51,6 +51,7 @@ Definition is_blocked (z : zt) : bool := N.eqb (zc z) 2.
 Definition is_cblocked (z : zt) : bool := mcaller (fst z) && mcanc (fst z) && N.eqb (zc z) 2.
 Definition is_active (z : zt) : bool := N.eqb (zc z) 6 || N.eqb (zc z) 7 || N.eqb (zc z) 8 || N.eqb (zc z) 10.
 Definition is_panic (z : zt) : bool := N.eqb (zc z) 11.
+Definition is_ctxerr (z : zt) : bool := N.eqb (zc z) 12 || N.eqb (zc z) 13.
 Definition err_ret (zs : list zt) (e : N) : bool := existsb (fun z : zt => N.eqb (zc z) 5 && N.eqb (zv z) e) zs.
 Definition bk (i : nat) (zs : list zt) (jz : nat * zt) : mact :=
   let j := fst jz in let a := fst (snd jz) in let c := fst (snd (snd jz)) in
@@ -81,7 +82,8 @@ Lemma mon_once_eq m e o :
    (if existsb bad_canc newly then [(16, 4)] else []) ++
    (if existsb is_cblocked zs || (existsb is_blocked zs && negb (existsb is_active zs)) then [(16, 5)] else []) ++
    (if existsb is_panic zs then [(16, 8)] else []) ++
-   (if existsb (bad_taint acts2) newly then [(16, 9)] else [])).
+   (if existsb (bad_taint acts2) newly then [(16, 9)] else []) ++
+   (if existsb is_ctxerr zs then [(16, 10)] else [])).
 Proof. reflexivity. Qed.
 
 (* ------------------------------------------------------------------ the simulation relation *)
@@ -607,6 +609,18 @@ Section Clauses.
     - destruct Z as (_ & _ & Ec & _). rewrite Ec. pose proof (ccode_fst x') as Hx. cbn zeta in Hx. lia.
     - destruct Z as (_ & _ & Ec & _). rewrite Ec. pose proof (gcode_fst y') as Hy. cbn zeta in Hy. lia.
   Qed.
+
+  (* clause 10: the model's callers return a value, Canceled or a callback's error: never status 12 / 13 *)
+  Lemma cl10 z : In z zs -> is_ctxerr z = false.
+  Proof.
+    intros Hz. unfold is_ctxerr. apply orb_false_iff. split; apply N.eqb_neq; unfold zc.
+    - destruct (zs_in _ Hz) as (j & _ & _ & _ & [(a & x' & Z)|(g & y' & Z)]).
+      + destruct Z as (_ & _ & Ec & _). rewrite Ec. pose proof (ccode_fst x') as Hx. cbn zeta in Hx. lia.
+      + destruct Z as (_ & _ & Ec & _). rewrite Ec. pose proof (gcode_fst y') as Hy. cbn zeta in Hy. lia.
+    - destruct (zs_in _ Hz) as (j & _ & _ & _ & [(a & x' & Z)|(g & y' & Z)]).
+      + destruct Z as (_ & _ & Ec & _). rewrite Ec. pose proof (ccode_fst x') as Hx. cbn zeta in Hx. lia.
+      + destruct Z as (_ & _ & Ec & _). rewrite Ec. pose proof (gcode_fst y') as Hy. cbn zeta in Hy. lia.
+  Qed.
 End Clauses.
 
 (* ------------------------------------------------------------------ the bookkeeping re-establishes the relation *)
@@ -695,6 +709,7 @@ Proof.
   rewrite (cl5b _ _ _ _ HMid HI' HS' HM').
   rewrite (existsb_false_intro is_panic) by (intros z Hz; exact (cl8 _ _ _ _ HMid z Hz)).
   rewrite (existsb_filter_false (bad_taint A2) is_newly) by (intros z Hz _; exact (cl9 _ _ _ _ HMid HI' HM' z Hz)).
+  rewrite (existsb_false_intro is_ctxerr) by (intros z Hz; exact (cl10 _ _ _ _ HMid z Hz)).
   cbn [orb app]. eexists. split; [reflexivity|]. split; [|exact (conj HI' (conj HS' HM'))].
   exact (book_rel _ _ _ _ _ HMid HI' HS' HM' HSR).
 Qed.
